@@ -5,3 +5,9 @@ def lazy(module, fn):
     def run(tier, seed):
         return getattr(importlib.import_module(module), fn)(tier, seed)
     return run
+
+
+def lazy0(module, fn):
+    def run():
+        return getattr(importlib.import_module(module), fn)()
+    return run
